@@ -56,7 +56,7 @@ def run(ctx: Ctx, tier: str) -> Result:
         "constants equal the enum names. Every stub call passes metadata=GRPCService.metadata(), which returns the "
         "auth provider's metadata whenever a provider is configured.")
     res.trusted = [TRUSTED_LOGGING, "protobuf descriptors of the installed deep-proto wheel (schema data, not repository code)"]
-    res.not_decided = ["byte-level round trip and encodability of arbitrary unicode (lone surrogates make conversion return None)",
+    res.not_decided = ["byte-level round trip; encodability of text that does not come from values (file / function names of code objects, plugin attributes)",
                        "reception by the service; retries inside grpc"]
     for rid, text in (("C08.SCHEMA", "message constructions agree with the protobuf schema and the model"),
                       ("C08.TYPES", "attribute value types all convertible; subclass arms first"),
@@ -361,4 +361,6 @@ def run(ctx: Ctx, tier: str) -> Result:
                              "fails once, or another thread reads meanwhile, requests are sent with the placeholder and no credentials" % norm(later[0])[:60]))
         else:
             res.ok("C08.AUTH", {"cache assigned after the provider was asked": norm(st)[:70]})
+    from .common import borrow
+    borrow(ctx, res, tier, "c06", ("C06.TEXT",), "C08.TEXT", "the message survives serialisation: text derived from the program's values is made encodable where it is produced (lone surrogates)")
     return res
